@@ -251,6 +251,51 @@ func runC09(w *World, r *Report) {
 		}
 	}
 
+	// 2a'. the graph changes only by inserting a vertex, linking it to a declared parent, or deleting a vertex: every other
+	// library call that takes the graph lock exclusively (edge removal, transitive reduction, …) makes the edge set differ
+	// from what the signed vertices declare
+	r.rule("graph-mutators-are-the-three", "the only calls from the repository into the graph library that take its lock exclusively are AddVertexByID, AddEdge and DeleteVertex", 1)
+	{
+		writers := map[string]bool{}
+		if dp := w.SSA[dagPkg]; dp != nil {
+			for fn := range w.AllFuncs() {
+				if fn.Pkg != dp || fn.Parent() != nil || fn.Object() == nil {
+					continue
+				}
+				isW := false
+				instrsOf(fn, func(in ssa.Instruction) {
+					if c, ok := in.(*ssa.Call); ok {
+						if op, m, id, ok := lockOp(c); ok && op == "lock" && m == "W" && id == "dag.DAG.muDAG" {
+							isW = true
+						}
+					}
+				})
+				if isW {
+					writers[fn.Object().(*types.Func).FullName()] = true
+				}
+			}
+		}
+		allowed := map[string]bool{nAddVertexByID: true, nAddEdge: true, nDeleteVertex: true}
+		n, bad := 0, ""
+		for _, fn := range w.RepoFuncs("accountant") {
+			instrsOf(fn, func(in ssa.Instruction) {
+				c, ok := in.(ssa.CallInstruction)
+				if !ok {
+					return
+				}
+				name := calleeName(c)
+				if !writers[name] {
+					return
+				}
+				n++
+				if !allowed[name] {
+					bad += " " + shortFn(fn) + " calls " + shortCallee(c) + " at " + lineOf(w, c) + ";"
+				}
+			})
+		}
+		r.check(len(writers) >= 3 && n >= 3 && bad == "", "graph-mutators-are-the-three", "accountant", "-", fmt.Sprintf("%d calls of %d exclusive-lock methods of the graph library, all of the three kinds", n, len(writers)), bad)
+	}
+
 	// 2b'. a vertex that arrives from a peer is stored only after its hash and seal were recomputed from its contents
 	r.rule("received-vertex-self-authenticating", "gossip admission inserts a vertex only behind the success of leaf.verify(ab.verifier) for that very vertex on every path (no memo keyed by a claimed hash stands in for it)", 1)
 	gossipVerifyBeforeAdmit(w, r, "received-vertex-self-authenticating")
@@ -492,6 +537,50 @@ func genesisReceiverUsed(fn *ssa.Function) func(ssa.Value) bool {
 func runC10(w *World, r *Report) {
 	r.NotDecided = []string{"that the configured genesis wallet never signs (deployment)", "ledgers imported by means other than the three entry points"}
 	handedOverVertexIsFresh(w, r, "handed-over-vertex-is-fresh")
+	// "neither data nor spice" is decided from Data and Spice alone: the guards of all three entries call IsEmpty, so a
+	// predicate that also looks at another field changes what every guard lets through
+	r.rule("empty-means-no-data-and-no-spice", "Transaction.IsContract / IsSpiceTransfer / IsEmpty read no field of the transaction other than Data and Spice", 3)
+	for _, name := range []string{"IsContract", "IsSpiceTransfer", "IsEmpty"} {
+		pf := w.Func("transaction", "Transaction", name)
+		if pf == nil {
+			r.bad("empty-means-no-data-and-no-spice", name, "-", "predicate must resolve", "not found")
+			continue
+		}
+		other := ""
+		var visit func(fn *ssa.Function, depth int)
+		seenFn := map[*ssa.Function]bool{}
+		visit = func(fn *ssa.Function, depth int) {
+			if fn == nil || seenFn[fn] || depth > 3 || len(fn.Blocks) == 0 {
+				return
+			}
+			seenFn[fn] = true
+			instrsOf(fn, func(in ssa.Instruction) {
+				var base ssa.Value
+				var fname string
+				switch x := in.(type) {
+				case *ssa.Field:
+					base, fname = x.X, fieldName(x.X.Type(), x.Field)
+				case *ssa.FieldAddr:
+					base, fname = x.X, fieldName(x.X.Type(), x.Field)
+				case ssa.CallInstruction:
+					if cal := x.Common().StaticCallee(); cal != nil && isRepoFunc(cal) && cal.Signature.Recv() != nil && strings.HasSuffix(cal.Signature.Recv().Type().String(), "transaction.Transaction") {
+						visit(cal, depth+1)
+					}
+					return
+				default:
+					return
+				}
+				if !strings.HasSuffix(deref(base.Type()).String(), "transaction.Transaction") {
+					return
+				}
+				if fname != "Data" && fname != "Spice" {
+					other += " " + shortFn(fn) + " reads ." + fname + " at " + lineOf(w, in) + ";"
+				}
+			})
+		}
+		visit(pf, 0)
+		r.check(other == "", "empty-means-no-data-and-no-spice", name, w.Pos(pf.Pos()), "the predicate depends on Data and Spice only", other)
+	}
 	// the entries evaluate the genesis guard when DagLoaded() says so: whatever makes it true comes after the genesis
 	// wallet was recorded
 	r.rule("loaded-implies-genesis-known", "in LoadDag and CreateGenesis no write that turns the loaded flag on is followed, in a later block, by the assignment of genesisPublicAddress (a flag claimed early lets the guard compare against the empty address)", 2)
@@ -1178,6 +1267,37 @@ func runC13(w *World, r *Report) {
 			}
 		}
 		r.check(verdict != "newest-first", "retry-order", "buffer.getNext/comparator", w.Pos(gn.fn.Pos()), "parked vertices are retried in arrival order or oldest first", why)
+	}
+
+	// the retry bound is a time budget: one replay per tick. A second wake-up source (an admission, a signal) spends a
+	// parked vertex's repetitions without any time having passed for its parent to arrive.
+	r.rule("replays-are-paced-by-the-ticker", "the loop that pops parked vertices waits on the ticker and on the context only (plus sends): no other channel wakes it", 1)
+	if br := w.Func("accountant", "buffer", "run"); br != nil {
+		n, bad := 0, ""
+		for _, g := range withHelpers(br, 1) {
+			instrsOf(g, func(in ssa.Instruction) {
+				sel, ok := in.(*ssa.Select)
+				if !ok {
+					return
+				}
+				for _, st := range sel.States {
+					if st.Dir != types.RecvOnly {
+						continue
+					}
+					n++
+					p := pathOf(st.Chan)
+					isTicker := strings.HasSuffix(p, ".C") && strings.Contains(baseOf(st.Chan).Type().String(), "time.Ticker")
+					isCtx := false
+					if c, ok := strip(st.Chan).(*ssa.Call); ok && strings.HasSuffix(calleeName(c), "context.Context).Done") {
+						isCtx = true
+					}
+					if !isTicker && !isCtx {
+						bad += " the select at " + lineOf(w, sel) + " also waits on " + p + ";"
+					}
+				}
+			})
+		}
+		r.check(n >= 2 && bad == "", "replays-are-paced-by-the-ticker", "buffer.run", w.Pos(br.Pos()), "ticker and context are the only wake-up sources of the pop loop", bad)
 	}
 
 	r.rule("popped-is-published", "buffer.run publishes every parked vertex it pops: from getNext() every path to the next tick sends that value on the subscription channel, except when the buffer was empty", 1)
